@@ -83,7 +83,10 @@ Request(h, r, s, b, c) ==
                            /\ pc' = "bak"                                        \* the file exists: copy it first
                            /\ UNCHANGED maxrel
 
-(* outcome of a sub-step other than ok *)
+(* outcome of a sub-step other than ok.  "fail": the failpoint in front of the write returns an error;        *)
+(* "realfail": the failpoint lets the code go on and the REAL ioutil.WriteFile / os.Rename fails (the target of *)
+(* .bak / .new is a directory, the .new file has vanished before the rename).  Same action for the signer:      *)
+(* save() fails, the request is refused, nothing is released, the file keeps the old record.                   *)
 Fails ==           \* the write returns an error: save() fails, signBytesHRS restores Last* and returns the error
   /\ nfail < MaxFail /\ nfail' = nfail + 1
   /\ mem' = prev /\ pc' = "idle"
@@ -99,6 +102,7 @@ WriteBak(f) ==     \* ioutil.WriteFile(filePath+".bak", <current file>)
   /\ CASE f = "ok"    -> /\ bak' = main /\ pc' = "new"
                          /\ UNCHANGED <<up, mem, main, new, pend, prev, maxrel, ncrash, nfail>>
        [] f = "fail"  -> Fails
+       [] f = "realfail" -> Fails
        [] f = "crash" -> Crashes
 
 WriteNew(f) ==     \* ioutil.WriteFile(filePath+".new", newBytes)
@@ -107,6 +111,7 @@ WriteNew(f) ==     \* ioutil.WriteFile(filePath+".new", newBytes)
   /\ CASE f = "ok"    -> /\ new' = pend /\ pc' = "rename"
                          /\ UNCHANGED <<up, mem, main, bak, pend, prev, maxrel, ncrash, nfail>>
        [] f = "fail"  -> Fails
+       [] f = "realfail" -> Fails
        [] f = "crash" -> Crashes
 
 Rename(f) ==       \* os.Rename(filePath+".new", filePath)
@@ -115,6 +120,7 @@ Rename(f) ==       \* os.Rename(filePath+".new", filePath)
   /\ CASE f = "ok"    -> /\ main' = new /\ new' = NoFile /\ pc' = "ret"
                          /\ UNCHANGED <<up, mem, bak, pend, prev, maxrel, ncrash, nfail>>
        [] f = "fail"  -> Fails
+       [] f = "realfail" -> Fails
        [] f = "crash" -> Crashes
 
 Return(f) ==       \* save() returned nil: the signature is handed to the caller
@@ -137,7 +143,7 @@ Reload ==          \* restart: LoadPrivValidator(filePath) reads priv_validator.
 
 Next ==
   \/ \E h \in 1..MaxH, r \in 0..MaxR, s \in Steps, b \in Blocks, c \in {"regress", "same", "sign"} : Request(h, r, s, b, c)
-  \/ \E f \in {"ok", "fail", "crash"} : WriteBak(f) \/ WriteNew(f) \/ Rename(f)
+  \/ \E f \in {"ok", "fail", "realfail", "crash"} : WriteBak(f) \/ WriteNew(f) \/ Rename(f)
   \/ \E f \in {"ok", "crash"} : Return(f)
   \/ Crash \/ Reload
 
